@@ -96,6 +96,7 @@ type VerifCtx struct {
 	calledContracts map[string]int
 	lockSlots map[string]bool
 	disc      func(ex *Exec, st *State, p PtrV, write bool, pc *Term, pos token.Pos)
+	axioms    map[*types.Package]*Contract
 }
 
 type fieldDiscipline struct {
@@ -103,7 +104,7 @@ type fieldDiscipline struct {
 	Arg  string
 }
 
-var clauseKW = regexp.MustCompile(`^(func|props|requires|ensures|modifies|loop|label|inline|trusted|pure|import|replay|noframe|field|lockorder|lemma|spec)\b`)
+var clauseKW = regexp.MustCompile(`^(func|props|requires|ensures|modifies|loop|label|inline|trusted|pure|import|replay|noframe|field|lockorder|lemma|spec|axiom)\b`)
 
 type rawContract struct {
 	header string
@@ -122,6 +123,7 @@ func parseContractFile(path string) (imports []string, raws []*rawContract, file
 		return nil, nil, nil, err
 	}
 	var cur *rawContract
+	var axioms *rawContract
 	for i, ln := range strings.Split(string(data), "\n") {
 		t := strings.TrimSpace(ln)
 		if !strings.HasPrefix(t, "//@") {
@@ -143,6 +145,14 @@ func parseContractFile(path string) (imports []string, raws []*rawContract, file
 				continue
 			case "field", "lockorder":
 				fileDirectives = append(fileDirectives, rawLine{body, i + 1})
+				continue
+			case "axiom":
+				if axioms == nil {
+					axioms = &rawContract{header: "func lncvcAxioms()", line: i + 1}
+					raws = append(raws, axioms)
+				}
+				axioms.lines = append(axioms.lines, rawLine{"requires " + strings.TrimSpace(strings.TrimPrefix(body, "axiom")), i + 1})
+				cur = nil
 				continue
 			}
 			if cur == nil {
@@ -167,7 +177,7 @@ func LoadCtx(repo string, pkgDirs []string) (*VerifCtx, error) {
 		implCache: map[string][]implInfo{}, usedModels: map[string]int{}, srcCache: map[string][]byte{},
 		closed: map[types.Object]bool{}, specDecls: map[types.Object]*ast.FuncDecl{}, infoOf: map[*types.Package]*types.Info{},
 		pkgOf: map[*types.Package]*packages.Package{}, genFiles: map[string]string{}, decls: map[*types.Func]*ast.FuncDecl{},
-		fieldDisc: map[string]fieldDiscipline{}, lockRank: map[string]int{}, calledContracts: map[string]int{}, lockSlots: map[string]bool{}}
+		fieldDisc: map[string]fieldDiscipline{}, lockRank: map[string]int{}, calledContracts: map[string]int{}, lockSlots: map[string]bool{}, axioms: map[*types.Package]*Contract{}}
 	overlay := map[string][]byte{}
 	type pending struct {
 		dir   string
@@ -326,6 +336,18 @@ func LoadCtx(repo string, pkgDirs []string) (*VerifCtx, error) {
 			}
 			ct.Stub = st
 			ct.StubObj = pkg.TypesInfo.Defs[st.Name].(*types.Func)
+			if ct.Name == "lncvcAxioms" {
+				for _, s := range st.Body.List {
+					if es, ok := s.(*ast.ExprStmt); ok {
+						if call, ok := es.X.(*ast.CallExpr); ok {
+							idx, _ := strconv.Atoi(call.Args[0].(*ast.BasicLit).Value)
+							ct.Clauses[idx].Exprs = call.Args[1:]
+						}
+					}
+				}
+				c.axioms[pkg.Types] = ct
+				continue
+			}
 			// the real function
 			var fn *ssa.Function
 			if ct.RecvType == "" {
@@ -596,6 +618,53 @@ func (c *VerifCtx) mayBeClosed(v ssa.Value) bool {
 		return false
 	}
 	return true
+}
+
+// chanDisc: declared discipline of the channel-typed struct field the channel
+// value was loaded from ("" if none).
+func (c *VerifCtx) chanDisc(v ssa.Value) string {
+	u, ok := v.(*ssa.UnOp)
+	if !ok || u.Op != token.MUL {
+		return ""
+	}
+	fa, ok := u.X.(*ssa.FieldAddr)
+	if !ok {
+		return ""
+	}
+	pt, ok := fa.X.Type().Underlying().(*types.Pointer)
+	if !ok {
+		return ""
+	}
+	nt, ok := types.Unalias(pt.Elem()).(*types.Named)
+	if !ok {
+		return ""
+	}
+	st := nt.Underlying().(*types.Struct)
+	return c.fieldDisc[nt.Obj().Name()+"."+st.Field(fa.Field).Name()].Kind
+}
+
+// isSink: the called function value is loaded from a struct field declared
+// `field T.f sink`: byte-slice arguments are appended to the ghost wire log.
+func (c *VerifCtx) isSink(v ssa.Value) bool {
+	u, ok := v.(*ssa.UnOp)
+	if !ok || u.Op != token.MUL {
+		return false
+	}
+	fa, ok := u.X.(*ssa.FieldAddr)
+	if !ok {
+		return false
+	}
+	pt, ok := fa.X.Type().Underlying().(*types.Pointer)
+	if !ok {
+		return false
+	}
+	nt, ok := types.Unalias(pt.Elem()).(*types.Named)
+	if !ok {
+		return false
+	}
+	st := nt.Underlying().(*types.Struct)
+	d, ok := c.fieldDisc[nt.Obj().Name()+"."+st.Field(fa.Field).Name()]
+	return ok && d.Kind == "sink"
 }
 
 func (c *VerifCtx) sourceAt(p token.Pos) string {
